@@ -942,9 +942,68 @@ func runE2EReaderCut(r *rand.Rand, n int) {
 	}
 }
 
+// runE2ELSOFamily: an open transaction keeps the last stable offset (at a batch base) below the
+// high watermark; the responses are cut so that a fetch of the Reader lands EXACTLY on the last
+// stable offset; every fetch is answered with the data at its offset (read_uncommitted, the
+// default: records up to the high watermark).  The Reader must deliver every stored record.
+func runE2ELSOFamily() {
+	const ts = int64(1600000000000)
+	var layout fetchfake.Layout
+	for o := int64(10); o <= 21; o++ {
+		layout = append(layout, fetchfake.PBatch{Fmt: 2, Base: o, Lod: 0, Ts: ts,
+			Recs: []fetchfake.Record{{Off: o, Ts: ts + o, Key: []byte(fmt.Sprintf("k%d", o)), Val: []byte(fmt.Sprintf("v%d", o))}}})
+	}
+	opts := fetchfake.GenOpts{Formats: []int{2}, Codecs: []int{0}, MaxBatch: 1}
+	n := 0
+	for _, ver := range []int{2, 5, 10} {
+		for _, lso := range []int64{10, 12, 15, 21} {
+			for _, first := range []int{1, 2, 3} { // batches in the first answer
+				n++
+				s := newE2E(rand.New(rand.NewSource(int64(1000+n))), ver, layout, opts, 10, 22, 1<<20, 8)
+				s.fake.SetLSO(lso)
+				s.feats["lso<hwm"] = true
+				s.feats["lso-family"] = true
+				start := max(lso-int64(first), 10)
+				func() {
+					if start != 10 || first == 2 {
+						s.setOffset(start) // the first answer ends right before the last stable offset
+					}
+					nb := int(lso - start)
+					if nb == 0 {
+						nb = first
+					}
+					for i := 0; i < 12 && !s.hang; i++ {
+						if !s.quiesce() {
+							return
+						}
+						pf := s.fake.PendingGen(s.gen)
+						if pf == nil || len(s.layout.FromOffset(pf.Offset)) == 0 {
+							break
+						}
+						if pf.Offset == lso {
+							s.feats["fetch-at-lso"] = true
+						}
+						s.answerBatches(pf, nb)
+						nb = 2
+						if len(s.deliv) == 0 && i >= 4 {
+							break // no progress: the same offset is fetched again and again
+						}
+					}
+					s.quiesce()
+				}()
+				if len(s.deliv) != int(22-start) {
+					s.feats["incomplete"] = true
+				}
+				s.finish("e2e", "then-reads")
+			}
+		}
+	}
+}
+
 func runE2E(r *rand.Rand, n int) {
 	runE2EF1()
 	runE2ESetOffsetFamily()
+	runE2ELSOFamily()
 	for i := 0; i < n; i++ {
 		runE2EScenario(r)
 	}
@@ -983,6 +1042,10 @@ func runE2EScenario(r *rand.Rand) {
 
 	if r.Intn(4) == 0 { // position the Reader before it is started
 		s.setOffset(s.randomOffset())
+	}
+	if r.Intn(3) == 0 { // an open transaction: last stable offset (at a batch base) below the high watermark
+		s.fake.SetLSO(layout[r.Intn(len(layout))].Base)
+		s.feats["lso<hwm"] = true
 	}
 	steps := 15 + r.Intn(26)
 	for i := 0; i < steps && !s.hang; i++ {
